@@ -33,7 +33,7 @@ type C12Case struct {
 }
 
 func GenC12() *rapid.Generator[C12Case] {
-	ng := genNet(NetCfg{LongChains: true, Rename: true, Wide: true})
+	ng := genNet(NetCfg{LongChains: true, Rename: true, Wide: true, FlaggedLinks: true, ManyIO: true})
 	return rapid.Custom(func(t *rapid.T) C12Case {
 		c := C12Case{Net: ng.Draw(t, "net"), Extra: rapid.IntRange(0, 3).Draw(t, "extra steps")}
 		nIn, _, _, _ := c.Net.counts()
